@@ -2,6 +2,7 @@ import VecModel.Lemmas.Sparse
 import VecModel.Lemmas.BPE
 import VecModel.Props.C06
 import VecModel.Props.C16
+import VecModel.Model.Histogram
 /-
   C12 — each output row depends only on its own input item and the fitted model.
   Generic part: the row view of every row-wise `transform` is `items.map rowOf` with `rowOf`
@@ -146,5 +147,25 @@ theorem bpe_transform_is_map (cl : List BPE.Pair) (mcc : Int) (A B : List (List 
   refine ⟨List.map_append, ?_⟩
   intro i hi
   simp [List.getElem?_append_left, hi]
+
+/-- HistogramVectorizer / KDEVectorizer `transform` (model: one `Hist.counts bins` / `Hist.kdeRow K h grid`
+per sequence): row `i` is a function of sequence `i` and the fitted model alone — the batch may be extended,
+split, or the other sequences replaced without changing it. -/
+theorem histogram_row_indep (bins : List Hist.Bin) (A B : List (List Rat)) :
+    (A ++ B).map (Hist.counts bins) = A.map (Hist.counts bins) ++ B.map (Hist.counts bins) ∧
+    ∀ (X Y : List (List Rat)) (i : Nat), X[i]? = Y[i]? →
+      (X.map (Hist.counts bins))[i]? = (Y.map (Hist.counts bins))[i]? := by
+  refine ⟨List.map_append, ?_⟩
+  intro X Y i h
+  simp [List.getElem?_map, h]
+
+theorem kde_row_indep {α : Type} [Add α] [Sub α] [Mul α] [Div α] [OfNat α 0] [NatCast α]
+    (K : α → α) (h : α) (grid : List α) (A B : List (List α)) :
+    (A ++ B).map (Hist.kdeRow K h grid) = A.map (Hist.kdeRow K h grid) ++ B.map (Hist.kdeRow K h grid) ∧
+    ∀ (X Y : List (List α)) (i : Nat), X[i]? = Y[i]? →
+      (X.map (Hist.kdeRow K h grid))[i]? = (Y.map (Hist.kdeRow K h grid))[i]? := by
+  refine ⟨List.map_append, ?_⟩
+  intro X Y i hXY
+  simp [List.getElem?_map, hXY]
 
 end VecModel.C12
